@@ -10,11 +10,14 @@ from harness.common import f2hex, q2s, s2q, run_driver, lean_obligations
 from harness.translate import translator_obligations
 from harness.search_deriv import derivative_search
 
-MODULE = 'Ndt.Props.C01'
+MODULE = 'Ndt.Props.C01Complex'
 THEOREMS = ['Ndt.dCentral_expansion', 'Ndt.dCentralEven_expansion', 'Ndt.dForward_expansion', 'Ndt.dBackward_expansion',
             'Ndt.fdRow_apply_k', 'Ndt.fdApply_on_expansion', 'Ndt.diffName_real', 'Ndt.real_step_candidates_exact',
             'Ndt.richCall_const', 'Ndt.wynnTable_const', 'Ndt.bestEstimate_const', 'Ndt.tailStage_const',
-            'Ndt.derivative_exact_on_polynomials', 'Ndt.zero_order_is_f']
+            'Ndt.derivative_exact_on_polynomials', 'Ndt.zero_order_is_f',
+            'Ndt.qComplex_expansion', 'Ndt.qComplexOdd_expansion', 'Ndt.qComplexOddHigher_expansion', 'Ndt.qComplexEven_expansion',
+            'Ndt.qComplexEvenHigher_expansion', 'Ndt.complex_names', 'Ndt.complex_step_candidates_exact',
+            'Ndt.derivative_exact_on_polynomials_complex']
 EPS = 2.0 ** -52
 C_ROUND = 4096.0
 
@@ -67,6 +70,32 @@ def run(ctx):
         else:
             ctx.mismatch('diff', [nm, list(map(str, cs)), str(x), str(h)], float(v), line)
     ctx.sample({'engine': 'diff', 'case': [qcases[0][0], list(map(str, qcases[0][1])), str(qcases[0][2]), str(qcases[0][3])], 'model': out[0]})
+    # the complex-step quotients along _SQRT_J: the model evaluates them exactly over Q(zeta_8); the implementation's value (float
+    # arithmetic with a rounded sqrt(i)) must agree within rounding, and the coefficient of sqrt(2) of the exact value must vanish
+    ccases = []
+    for _ in range(ctx.budget(150, 1500)):
+        name = rng.choice(['_complex', '_complex_odd', '_complex_odd_higher', '_complex_even', '_complex_even_higher'])
+        deg = rng.randint(0, 9)
+        cs = [Fraction(rng.randint(-8, 8), rng.choice([1, 2, 4])) for _ in range(deg + 1)]
+        x = Fraction(rng.randint(-16, 16), 8)
+        h = Fraction(1, 2 ** rng.randint(0, 4))
+        ccases.append((name, cs, x, h))
+    outc = run_driver(['quotc %s %s %s | %s' % (nm, q2s(x), q2s(h), ' '.join(q2s(c) for c in cs)) for nm, cs, x, h in ccases], 'C01c')
+    for (nm, cs, x, h), line in zip(ccases, outc):
+        eng['cases'] += 1
+        ctx.count('diff', nm)
+        f = lambda t: peval([float(c) for c in cs], t)
+        v = getattr(DF, nm)(f, f(float(x)), float(x), float(h))
+        rat, s2 = (s2q(t) for t in line.split())
+        mag = sum(abs(float(c)) * (abs(float(x)) + float(h)) ** k for k, c in enumerate(cs)) * 24 + 1e-300
+        if s2 != 0:
+            ctx.mismatch('diff', [nm, list(map(str, cs)), str(x), str(h)], float(v), line, 'the exact quotient of a real polynomial has a sqrt(2) part')
+        elif float(v) == float(rat):
+            eng['exact'] += 1
+        elif abs(float(v) - float(rat)) <= 64 * 2.0 ** -52 * mag:
+            eng['rounded'] += 1
+        else:
+            ctx.mismatch('diff', [nm, list(map(str, cs)), str(x), str(h)], float(v), line, 'complex-step quotient')
 
     # ---------------- engine `pipeline.linear`: steps -> quotients -> rule -> /h^n, through the real Derivative ------------
     eng = ctx.engine('pipeline.linear')
